@@ -713,6 +713,136 @@ Section WithOracle.
     exists e. split; [reflexivity|]. cbn [option_map] in Hag. inversion Hag. reflexivity.
   Qed.
 
+  (* ---- the binding as declared: executeHookOnEvent / watchEvent -> MonitorConfig.EventTypes ---- *)
+
+  (* the conversion of config_v1.go yields the list the specification reads from the declaration *)
+  Lemma effective_is_declared d : effective_types d = declared_types d.
+  Proof. destruct d as [[l|] [w|]]; reflexivity. Qed.
+
+  Lemma effective_should_fire d filter t :
+    should_fire (mkConfig (effective_types d) filter) t = listed (declared_types d) t.
+  Proof. rewrite effective_is_declared. reflexivity. Qed.
+
+  (* executeHookOnEvent present: its value is the effective list, whatever watchEvent says *)
+  Lemma exec_priority l w : effective_types (mkDecl (Some l) w) = l.
+  Proof. reflexivity. Qed.
+
+  (* whatever is fired carries the type of the delivery, and that type passes the gate *)
+  Lemma handle_fired_listed cfg c t id o ev :
+    snd (handle jq cfg c t id o) = Some ev -> ev_type ev = t /\ should_fire cfg t = true.
+  Proof.
+    unfold handle. destruct (apply_filter jq cfg o) as [e|]; [|discriminate].
+    destruct (should_fire cfg t) eqn:Es.
+    - destruct t; cbn [snd].
+      + destruct (match c_get id c with Some cached => json_eqb (e_proj cached) (e_proj e) | None => false end);
+          [discriminate|]. intros H; inversion H; subst ev. split; reflexivity.
+      + destruct (match c_get id c with Some cached => json_eqb (e_proj cached) (e_proj e) | None => false end);
+          [discriminate|]. intros H; inversion H; subst ev. split; reflexivity.
+      + intros H; inversion H; subst ev. split; reflexivity.
+    - destruct t; cbn [snd];
+        try (destruct (match c_get id c with Some cached => json_eqb (e_proj cached) (e_proj e) | None => false end));
+        discriminate.
+  Qed.
+
+  Lemma run_d_fired_listed cfg h : forall c,
+    Forall (fun r : cache * option event =>
+              forall ev, snd r = Some ev -> should_fire cfg (ev_type ev) = true)
+           (run_d jq cfg c h).
+  Proof.
+    induction h as [|[[t id] d] r IH]; intros c; [constructor|].
+    cbn [run_d]. unfold handle_d.
+    destruct (handle jq cfg c t id (unwrap d)) as [c' ev'] eqn:Eh.
+    constructor; [|apply IH].
+    cbn [snd]. intros ev Hev.
+    assert (Hs : snd (handle jq cfg c t id (unwrap d)) = Some ev) by (rewrite Eh; exact Hev).
+    destruct (handle_fired_listed _ _ _ _ _ _ Hs) as [Et Hf]. rewrite Et. exact Hf.
+  Qed.
+
+  Lemma listed_In l t : listed l t = true <-> In t l.
+  Proof.
+    unfold listed. rewrite existsb_exists. split.
+    - intros (x & Hin & He). apply evtype_eqb_eq in He. subst x. exact Hin.
+    - intros Hin. exists t. split; [exact Hin | apply evtype_eqb_eq; reflexivity].
+  Qed.
+
+  (* "only if its watch-event type is listed in executeHookOnEvent": for every oracle, every
+     declaration in which the key is present (any list, any watchEvent beside it), every
+     filter setting, every cache and every history of deliveries *)
+  Lemma declared_only_listed d filter l c h :
+    d_exec d = Some l ->
+    Forall (fun r : cache * option event => forall ev, snd r = Some ev -> In (ev_type ev) l)
+           (run_d jq (mkConfig (effective_types d) filter) c h).
+  Proof.
+    intros Hd.
+    assert (El : effective_types d = l) by (unfold effective_types; rewrite Hd; reflexivity).
+    eapply Forall_impl; [|apply run_d_fired_listed].
+    cbv beta. intros r Hr ev Hev. specialize (Hr ev Hev).
+    unfold should_fire in Hr. cbn [c_types] in Hr. rewrite El in Hr.
+    apply listed_In. exact Hr.
+  Qed.
+
+  (* the same as the specification's boolean clause, on the model's observations *)
+  Lemma only_listed_model d filter c h :
+    only_listed d (map to_obs (run_d jq (mkConfig (effective_types d) filter) c h)) = true.
+  Proof.
+    unfold only_listed. destruct (d_exec d) as [l|] eqn:Hd; [|reflexivity].
+    pose proof (declared_only_listed d filter l c h Hd) as HF.
+    induction HF as [|r rs Hr _ IH]; [reflexivity|].
+    cbn [map forallb]. rewrite IH, andb_true_r.
+    unfold to_obs. cbn [o_fired]. destruct (snd r) as [ev|] eqn:Es; [|reflexivity].
+    cbn [forallb]. rewrite andb_true_r. apply listed_In. apply (Hr ev). reflexivity.
+  Qed.
+
+  (* the documented snapshot-only binding, `executeHookOnEvent: []`: nothing ever fires,
+     whatever the deprecated key says *)
+  Lemma snapshot_only_silent w filter c h :
+    Forall (fun r : cache * option event => snd r = None)
+           (run_d jq (mkConfig (effective_types (mkDecl (Some []) w)) filter) c h).
+  Proof.
+    eapply Forall_impl; [|apply (declared_only_listed (mkDecl (Some []) w) filter [] c h); reflexivity].
+    cbv beta. intros r Hr. destruct (snd r) as [ev|]; [|reflexivity].
+    destruct (Hr ev eq_refl).
+  Qed.
+
+  (* ... and its snapshot follows every change *)
+  Lemma snapshot_only_follows w filter h id :
+    let cfg := mkConfig (effective_types (mkDecl (Some []) w)) filter in
+    never_fails cfg (map change_of h) ->
+    option_map e_obj (c_get id (final_cache_d jq cfg [] h)) = latest id None (map change_of h).
+  Proof.
+    intros cfg Hnf. rewrite final_cache_d_changes. apply cache_always_latest. exact Hnf.
+  Qed.
+
+  Lemma effective_as_declared d :
+    effective_types d = declared_types d /\
+    forall filter t, should_fire (mkConfig (effective_types d) filter) t = listed (declared_types d) t.
+  Proof. split; [apply effective_is_declared | apply effective_should_fire]. Qed.
+
+  Lemma snapshot_only_binding w filter :
+    (forall c h, Forall (fun r : cache * option event => snd r = None)
+                        (run_d jq (mkConfig (effective_types (mkDecl (Some []) w)) filter) c h)) /\
+    (forall h id,
+       let cfg := mkConfig (effective_types (mkDecl (Some []) w)) filter in
+       never_fails cfg (map change_of h) ->
+       option_map e_obj (c_get id (final_cache_d jq cfg [] h)) = latest id None (map change_of h)).
+  Proof. split; [apply snapshot_only_silent | apply snapshot_only_follows]. Qed.
+
+  (* the property for every DECLARED binding, every set of existing objects and every history
+     of deliveries, outside the two findings *)
+  Lemma partial_declared d filter listed (h : list dstep) :
+    oracle_canonical (listed_steps listed ++ map change_of h) ->
+    T_F8 jq filter (listed_steps listed ++ map change_of h) = false ->
+    T_F16 jq filter (listed_steps listed ++ map change_of h) = false ->
+    exists c0, load_existed jq (mkConfig (effective_types d) filter) listed [] = Some c0 /\
+      P_decl jq d filter listed (map change_of h)
+             (map to_obs (run_d jq (mkConfig (effective_types d) filter) c0 h)) = true.
+  Proof.
+    intros Hcan H8 H16.
+    destruct (partial_start (effective_types d) filter listed h Hcan H8 H16) as (c0 & Hl & HP).
+    exists c0. split; [exact Hl|]. unfold P_decl.
+    rewrite <- effective_is_declared, HP, only_listed_model. reflexivity.
+  Qed.
+
   (* an object that disappeared during the outage: its tombstone fires Deleted iff listed *)
   Lemma relist_gone_is_deleted (store listed : list (N * json)) s :
     In s (flat_map (relist_gone listed) store) ->
@@ -813,6 +943,26 @@ Lemma refuted_start :
             (map to_obs (run_d jq (mkConfig types filter) c0 h)) = false.
 Proof.
   exists jq_replicas, all3, true, listed_F8, h_F8_start.
+  eexists. split.
+  - intros s [H|[H|[H|[]]]]; subst s; vm_compute; reflexivity.
+  - split; [vm_compute; reflexivity|]. split; [vm_compute; reflexivity|].
+    split; [vm_compute; reflexivity|]. vm_compute; reflexivity.
+Qed.
+
+(* the same witness for a DECLARED binding: `executeHookOnEvent: [Added, Modified, Deleted]`
+   (with a leftover `watchEvent: []` beside it, which has no say) *)
+Definition d_F8 : decl := mkDecl (Some all3) (Some []).
+
+Lemma refuted_declared :
+  exists jq d filter listed (h : list dstep) c0,
+    oracle_canonical jq (listed_steps listed ++ map change_of h) /\
+    T_F8 jq filter (listed_steps listed ++ map change_of h) = true /\
+    T_F16 jq filter (listed_steps listed ++ map change_of h) = false /\
+    load_existed jq (mkConfig (effective_types d) filter) listed [] = Some c0 /\
+    P_decl jq d filter listed (map change_of h)
+           (map to_obs (run_d jq (mkConfig (effective_types d) filter) c0 h)) = false.
+Proof.
+  exists jq_replicas, d_F8, true, listed_F8, h_F8_start.
   eexists. split.
   - intros s [H|[H|[H|[]]]]; subst s; vm_compute; reflexivity.
   - split; [vm_compute; reflexivity|]. split; [vm_compute; reflexivity|].
